@@ -55,6 +55,8 @@ class C05(Check):
             descs.append((G.tx_desc(rng, **sh), "grid-type%d-v%d" % (sh["rct_type"], sh["version"])))
         for sh in G.ring0_shapes():
             descs.append((G.tx_desc(rng, **sh), "empty-ring" + ("" if G.shape_is_wf(sh) else "-refused")))
+        for sh in G.big_count_shapes()[::2]:
+            descs.append((G.tx_desc(rng, **sh), "big-count"))
         for _ in range(400 if not thorough else 6000):
             sh = G.random_shape(rng, small=True)
             descs.append((G.tx_desc(rng, **sh), "random-type%d" % sh["rct_type"]))
